@@ -14,7 +14,6 @@ from harness.translators import C14_table as T
 from harness.props import C14_util as U
 
 PID = "C14"
-KEY_KD = "legacy-passkey-keyboarddisplay-never-inputs"
 
 
 # ---------------------------------------------------------------------------
@@ -51,7 +50,7 @@ def stage_a(ctx):
     for fn in ("Sel.v", "SelProofs.v"):
         open(os.path.join(d, fn), "w").write(rewrite(open(os.path.join(C.COQ, "theories", PID, fn)).read()))
     names = ["method_is_spec_on_domain", "method_is_spec", "method_is_spec_peers", "authenticated_is_spec",
-             "legacy_passkey_roles_refuted", "legacy_passkey_roles_partial", "legacy_passkey_roles_class_exact"]
+             "legacy_passkey_roles"]
     with open(os.path.join(d, "AssumeA.v"), "w") as f:
         f.write("From WhadRegen Require Import SelProofs.\n")
         for n in names:
@@ -97,14 +96,15 @@ def stage_a_live(ctx, info, table, regen_dir):
     # run_cases compiles with -Q theories only; the regenerated modules need -Q regen WhadRegen: use coq_eval-like manual file
     ctype = "(bool * bool * bool * N) * (bool * bool * bool * N) * option (option N)"
     pins = table["pins"]
-    pterms = ["(%d, %s)" % (io, cbool(src == "typed")) for io, init, src in pins if src in ("typed", "generated")]
+    pterms = ["(%s, %d, %d, %s)" % (cbool(init), io, peer, cbool(src == "typed")) for io, peer, init, src in pins
+              if src in ("typed", "generated")]
     with concurrent.futures.ThreadPoolExecutor(max_workers=3) as ex:
         f1 = ex.submit(U.run_cases_Q, PID, "tr", pre_regen, ctype, terms, "check_translated", regen_dir)
         f2 = ex.submit(U.run_cases_Q, PID, "sp", pre_regen, ctype, terms, "check_live_is_spec", regen_dir)
-        f3 = ex.submit(U.run_cases_Q, PID, "pin", pre_regen, "N * bool", pterms, "check_pin_source", regen_dir)
+        f3 = ex.submit(U.run_cases_Q, PID, "pin", pre_regen, "bool * N * N * bool", pterms, "check_pin_source", regen_dir)
         bad_tr, bad_sp, bad_pin = f1.result(), f2.result(), f3.result()
     if len(pterms) != len(pins):
-        bad_pin = bad_pin + [i for i, p in enumerate(pins) if p[2] not in ("typed", "generated")]
+        bad_pin = bad_pin + [i for i, p in enumerate(pins) if p[3] not in ("typed", "generated")]
     return bad_tr, bad_sp, bad_pin, rows
 
 
@@ -155,10 +155,6 @@ class Gen:
                 which = self.rng.randrange(3)
                 ui["nc_i"], ui["nc_r"] = [(False, True), (True, False), (False, False)][which]
                 expect = "failure"
-        if m == 1 and expect == "success":
-            # KNOWN FINDING class: the specification asks a KeyboardDisplay device to input the passkey
-            if (role == 1 and pr["iocap"] == 4) or (role == 2 and pi["iocap"] == 4):
-                cls = KEY_KD
         return ui, expect, cls, m
 
     def ediv(self):
